@@ -59,7 +59,11 @@ func ArrProps(propContainer map[string]object.PanObject) map[string]object.PanOb
 				}
 
 				// NOTE: no need to copy each elem because they are immutable
-				elems := append(self.Elems, other.Elems...)
+				// (but never append to self.Elems directly, otherwise spare capacity
+				// of self's backing array is shared among results)
+				elems := make([]object.PanObject, 0, len(self.Elems)+len(other.Elems))
+				elems = append(elems, self.Elems...)
+				elems = append(elems, other.Elems...)
 				return object.NewPanArr(elems...)
 			},
 		),
